@@ -80,6 +80,8 @@ type nfSlot struct {
 	held       map[string]*nfHeld
 	reached    map[string]bool
 	listed     []string // keys this slot has asked for (generator only)
+	holdNext   bool                     // park the server handler of the next listen right after its ack write
+	ackParked  map[string]chan struct{} // handlers parked there: "m" / "r<i>" -> release channel
 }
 
 type nfWorld struct {
@@ -195,6 +197,33 @@ func (w *nfWorld) newServer(capT, capP, capR string) {
 				case *ReadResourceResult:
 					r.TTLMs = ttl
 				}
+			}
+			return res, err
+		}
+	})
+	// Schedule point "right after the acknowledgement write": the goroutine that runs a
+	// subscriptions/listen handler is parked once notifySubscriptionAcked's write has returned (the
+	// client has the ack), holding no lock, until the `ackdone` label. Whatever the handler still has
+	// to do after acknowledging happens after every label scheduled into that window.
+	w.s.AddSendingMiddleware(func(next MethodHandler) MethodHandler {
+		return func(ctx context.Context, method string, req Request) (Result, error) {
+			res, err := next(ctx, method, req)
+			if method != notificationSubscriptionsAck || err != nil {
+				return res, err
+			}
+			ss, _ := req.GetSession().(*ServerSession)
+			var ch chan struct{}
+			w.mu.Lock()
+			for _, sl := range w.slots {
+				if sl != nil && sl.ss == ss && sl.holdNext {
+					sl.holdNext = false
+					ch = make(chan struct{})
+					sl.ackParked[sl.ackWant] = ch
+				}
+			}
+			w.mu.Unlock()
+			if ch != nil {
+				<-ch
 			}
 			return res, err
 		}
@@ -645,7 +674,8 @@ func (w *nfWorld) apply(toks []string) (obs string) {
 		}
 		sid, _ := strconv.Atoi(toks[2])
 		sl := &nfSlot{idx: i, sid: sid, modern: toks[3] == "modern", mask: toks[4], ids: map[string]string{},
-			rsubs: map[int]bool{}, held: map[string]*nfHeld{}, reached: map[string]bool{}, ackWant: "m"}
+			rsubs: map[int]bool{}, held: map[string]*nfHeld{}, reached: map[string]bool{}, ackWant: "m",
+			ackParked: map[string]chan struct{}{}}
 		w.newClient(sl)
 		ct, st := NewInMemoryTransports()
 		ss, err := w.s.Connect(context.Background(), st, nil)
@@ -680,7 +710,11 @@ func (w *nfWorld) apply(toks []string) (obs string) {
 		return w.withStray("ok")
 	case "listen":
 		sl, ok := slot(1)
-		if !ok || sl == nil || sl.listenGate == nil {
+		hold := len(toks) == 3 && toks[2] == "hold"
+		if !ok || len(toks) > 3 || (len(toks) == 3 && !hold) {
+			return "bad-op"
+		}
+		if sl == nil || sl.listenGate == nil {
 			return "refused"
 		}
 		w.mu.Lock()
@@ -688,6 +722,7 @@ func (w *nfWorld) apply(toks []string) (obs string) {
 		sl.listenGate = nil
 		sl.ackWant = "m"
 		sl.lastAck = "noack"
+		sl.holdNext = hold
 		w.mu.Unlock()
 		close(g)
 		synctest.Wait()
@@ -697,22 +732,35 @@ func (w *nfWorld) apply(toks []string) (obs string) {
 		sl.connected = true
 		w.mu.Lock()
 		a := sl.lastAck
+		sl.holdNext = false
+		if sl.ackParked["m"] != nil {
+			a += " parked"
+		}
 		w.mu.Unlock()
 		return w.withStray(a)
 	case "subscribe", "unsubscribe":
 		sl, ok := slot(1)
-		if !ok || sl == nil || !sl.connected {
+		hold := toks[0] == "subscribe" && len(toks) == 4 && toks[3] == "hold"
+		if !ok || len(toks) < 3 || len(toks) > 4 || (len(toks) == 4 && !hold) {
+			return "bad-op"
+		}
+		if sl == nil || !sl.connected {
 			return "refused"
 		}
 		u, _ := strconv.Atoi(strings.TrimPrefix(toks[2], "u"))
 		var err error
 		obs := "ok"
+		name := fmt.Sprintf("r%d", u)
 		if toks[0] == "subscribe" {
-			w.mu.Lock()
-			sl.ackWant = fmt.Sprintf("r%d", u)
-			sl.lastAck = "noack"
-			w.mu.Unlock()
+			if hold && !sl.modern {
+				return "refused"
+			}
 			was := sl.rsubs[u]
+			w.mu.Lock()
+			sl.ackWant = name
+			sl.lastAck = "noack"
+			sl.holdNext = hold && !was
+			w.mu.Unlock()
 			err = sl.cs.Subscribe(context.Background(), &SubscribeParams{URI: nfURI(u)})
 			synctest.Wait()
 			if sl.modern {
@@ -722,10 +770,20 @@ func (w *nfWorld) apply(toks []string) (obs string) {
 					sl.rsubs[u] = true
 					w.mu.Lock()
 					obs = sl.lastAck
+					sl.holdNext = false
+					if sl.ackParked[name] != nil {
+						obs += " parked"
+					}
 					w.mu.Unlock()
 				}
 			}
 		} else {
+			w.mu.Lock()
+			p := sl.ackParked[name]
+			w.mu.Unlock()
+			if p != nil {
+				return "refused" // the handler that would see the cancellation is held
+			}
 			err = sl.cs.Unsubscribe(context.Background(), &UnsubscribeParams{URI: nfURI(u)})
 			synctest.Wait()
 			delete(sl.rsubs, u)
@@ -736,7 +794,7 @@ func (w *nfWorld) apply(toks []string) (obs string) {
 		return w.withStray(obs)
 	case "close":
 		sl, ok := slot(1)
-		if !ok || sl == nil || !sl.connected || len(sl.held) > 0 {
+		if !ok || sl == nil || !sl.connected || len(sl.held) > 0 || len(sl.ackParked) > 0 {
 			return "refused"
 		}
 		sl.cs.Close()
@@ -744,6 +802,24 @@ func (w *nfWorld) apply(toks []string) (obs string) {
 		sl.ss.Wait()
 		w.closed[sl.ss] = sl.sid
 		w.slots[sl.idx] = nil
+		return w.withStray("ok")
+	case "ackdone":
+		sl, ok := slot(1)
+		if !ok || len(toks) != 3 {
+			return "bad-op"
+		}
+		if sl == nil {
+			return "refused"
+		}
+		w.mu.Lock()
+		ch := sl.ackParked[toks[2]]
+		delete(sl.ackParked, toks[2])
+		w.mu.Unlock()
+		if ch == nil {
+			return "refused"
+		}
+		close(ch)
+		synctest.Wait()
 		return w.withStray("ok")
 	case "rupdated":
 		u, _ := strconv.Atoi(strings.TrimPrefix(toks[1], "u"))
@@ -850,6 +926,27 @@ func (w *nfWorld) apply(toks []string) (obs string) {
 	return "bad-op"
 }
 
+// ackWindows lists the listen handlers that are held right after their ack write, as "c<i> <name>".
+func (w *nfWorld) ackWindows() []string {
+	w.mu.Lock()
+	defer w.mu.Unlock()
+	var out []string
+	for i, sl := range w.slots {
+		if sl == nil {
+			continue
+		}
+		var names []string
+		for n := range sl.ackParked {
+			names = append(names, n)
+		}
+		sort.Strings(names)
+		for _, n := range names {
+			out = append(out, fmt.Sprintf("c%d %s", i, n))
+		}
+	}
+	return out
+}
+
 func nfRet(v string, hit bool) string {
 	if hit {
 		return "ret " + v + " hit"
@@ -881,6 +978,11 @@ func (w *nfWorld) cleanup() {
 			if h.pre != nil && h.phase == "pre" {
 				close(h.pre)
 			}
+		}
+		sl.holdNext = false
+		for k, ch := range sl.ackParked {
+			close(ch)
+			delete(sl.ackParked, k)
 		}
 		w.mu.Unlock()
 	}
@@ -940,6 +1042,11 @@ func nfTag(toks []string, obs string) string {
 		return "change-" + toks[2]
 	case "connect":
 		return "connect-" + toks[3]
+	case "listen", "subscribe":
+		if strings.HasSuffix(obs, " parked") {
+			return toks[0] + "-hold"
+		}
+		return toks[0]
 	case "list":
 		f := strings.Fields(obs)
 		t := "list-" + toks[3]
@@ -1002,7 +1109,13 @@ func nfRunCase(t *testing.T, hook bool, emit nfEmit, next func(w *nfWorld, step 
 					before[i] = w.tracked(k)
 				}
 			}
+			inWindow := w.s != nil && len(w.ackWindows()) > 0
 			obs := w.apply(toks)
+			if inWindow && toks[0] != "advance" {
+				// the op ran while a listen handler was held right after its ack write
+				emit(op, obs, nfTag(toks, obs), "ackwin-"+toks[0])
+				continue
+			}
 			if toks[0] == "advance" && !w.hook && w.s != nil {
 				emit(op, obs, nfTag(toks, obs))
 				// hook-less tree: the callbacks that were due have run inside the advance
@@ -1074,7 +1187,7 @@ type nfGen struct {
 	nextSid int
 	tail    []string
 	hook    string
-	focus   int // 0 mixed, 1 debounce window, 2 cache races, 3 subscriptions
+	focus   int // 0 mixed, 1 debounce window, 2 cache races, 3 subscriptions, 4 windows after an ack write
 	steps   int
 }
 
@@ -1165,13 +1278,50 @@ func (g *nfGen) body(w *nfWorld) string {
 	g.steps++
 	if len(conn)+len(gated) == 0 && len(free) > 0 && g.rng.Intn(10) < 6 {
 		g.nextSid++
-		return fmt.Sprintf("connect c%d %d %s %s", free[g.rng.Intn(len(free))], g.nextSid, g.pick("legacy", "modern", "modern"), g.pick("tpr", "tpr", "t", "tp", "r", "-"))
+		gen := g.pick("legacy", "modern", "modern")
+		if g.focus == 4 {
+			gen = "modern"
+		}
+		return fmt.Sprintf("connect c%d %d %s %s", free[g.rng.Intn(len(free))], g.nextSid, gen, g.pick("tpr", "tpr", "t", "tp", "r", "-"))
+	}
+	holdP := 3 // out of 10: how often a listen's handler is held right after its ack write
+	if g.focus == 4 {
+		holdP = 8
+	}
+	hold := func() string {
+		if g.rng.Intn(10) < holdP {
+			return " hold"
+		}
+		return ""
+	}
+	wins := w.ackWindows()
+	if len(wins) > 0 {
+		// a window is open: mostly the labels whose outcome depends on the tables (changes and
+		// their timers and callbacks, ResourceUpdated, table dumps), sometimes the end of the window
+		switch r := g.rng.Intn(100); {
+		case r < 12:
+			return "ackdone " + wins[g.rng.Intn(len(wins))]
+		case r < 22 && len(parked) > 0:
+			return "cbrun " + parked[g.rng.Intn(len(parked))]
+		case r < 34:
+			return changeOp()
+		case r < 44:
+			d := int(notificationDelay / time.Millisecond)
+			return fmt.Sprintf("advance %d", []int{d, d, d + 1, 1, 2 * d}[g.rng.Intn(5)])
+		case r < 50:
+			return "tables"
+		case r < 56:
+			f := strings.Fields(wins[g.rng.Intn(len(wins))])
+			if strings.HasPrefix(f[1], "r") {
+				return "rupdated u" + f[1][1:]
+			}
+		}
 	}
 	for tries := 0; tries < 20; tries++ {
 		r := g.rng.Intn(100)
 		switch {
 		case len(gated) > 0 && r < 35:
-			return fmt.Sprintf("listen c%d", gated[g.rng.Intn(len(gated))])
+			return fmt.Sprintf("listen c%d%s", gated[g.rng.Intn(len(gated))], hold())
 		case len(parked) > 0 && r < 45:
 			return "cbrun " + parked[g.rng.Intn(len(parked))]
 		case r < 20:
@@ -1192,7 +1342,7 @@ func (g *nfGen) body(w *nfWorld) string {
 				continue
 			}
 			i := conn[g.rng.Intn(len(conn))]
-			if len(w.slots[i].held) > 0 {
+			if len(w.slots[i].held) > 0 || len(w.slots[i].ackParked) > 0 {
 				continue
 			}
 			g.tail = append(g.tail, "tables")
@@ -1201,10 +1351,17 @@ func (g *nfGen) body(w *nfWorld) string {
 			if len(conn) == 0 {
 				continue
 			}
+			i := conn[g.rng.Intn(len(conn))]
+			u := g.rng.Intn(2)
+			if sl := w.slots[i]; sl.modern && !sl.rsubs[u] {
+				if h := hold(); h != "" {
+					return fmt.Sprintf("subscribe c%d u%d hold", i, u)
+				}
+			}
 			if g.rng.Intn(3) == 0 {
 				g.tail = append(g.tail, "tables")
 			}
-			return fmt.Sprintf("subscribe c%d u%d", conn[g.rng.Intn(len(conn))], g.rng.Intn(2))
+			return fmt.Sprintf("subscribe c%d u%d", i, u)
 		case r < 62:
 			if len(conn) == 0 {
 				continue
@@ -1261,11 +1418,13 @@ func (g *nfGen) body(w *nfWorld) string {
 	return changeOp()
 }
 
+const nfScriptedShapes = 10
+
 // nfScripted: the shapes the property is about, placed at random offsets (so that quick runs always reach them).
 func nfScripted(rng *rand.Rand, hook string, variant int) []string {
 	d := int(notificationDelay / time.Millisecond)
 	ops := []string{fmt.Sprintf("config unset unset unset %s", hook), "ttl 60000"}
-	switch variant % 7 {
+	switch variant % nfScriptedShapes {
 	case 0: // F7 shape: held response, change, notification handled, fill, list
 		ops = append(ops, "change tools add", "connect c0 1 modern tpr", "listen c0", "list c0 tools post", "change tools add",
 			fmt.Sprintf("advance %d", d))
@@ -1300,6 +1459,24 @@ func nfScripted(rng *rand.Rand, hook string, variant int) []string {
 		} else {
 			ops = append(ops, fmt.Sprintf("advance %d", d))
 		}
+	case 7: // a burst inside the window between a listen's ack write and the handler's next step, then one after it
+		ops = append(ops, "change tools add", "connect c0 1 modern tpr", "listen c0 hold", "tables", "change tools add", fmt.Sprintf("advance %d", d))
+		if hook == "hook1" {
+			ops = append(ops, "cbrun tools")
+		}
+		ops = append(ops, "list c0 tools n", "ackdone c0 m", "tables", "change tools add", fmt.Sprintf("advance %d", d))
+		if hook == "hook1" {
+			ops = append(ops, "cbrun tools")
+		}
+	case 8: // ResourceUpdated inside the window after the ack of a per-URI listen
+		ops = append(ops, "connect c0 1 modern -", "connect c1 2 legacy -", "subscribe c1 u0", "subscribe c0 u0 hold", "tables", "rupdated u0",
+			"unsubscribe c0 u0", "ackdone c0 r0", "rupdated u0", "unsubscribe c0 u0", "tables", "rupdated u0")
+	case 9: // the change precedes the listen; its timer fires inside the window
+		ops = append(ops, "change prompts add", "connect c0 1 modern p", "change prompts add", "listen c0 hold", fmt.Sprintf("advance %d", d))
+		if hook == "hook1" {
+			ops = append(ops, "cbrun prompts")
+		}
+		ops = append(ops, "close c0", "ackdone c0 m", "close c0", "tables")
 	case 5: // capability inferred at listen time: nothing to list yet
 		ops = append(ops, "connect c0 1 modern tpr", "listen c0", "tables", "change prompts add", fmt.Sprintf("advance %d", d+1))
 		if hook == "hook1" {
@@ -1369,13 +1546,13 @@ func TestVerifNotify(t *testing.T) {
 		runOps("replay", strings.Split(string(b), "\n"), "replay")
 		return
 	}
-	for v := 0; v < 7; v++ {
+	for v := 0; v < nfScriptedShapes; v++ {
 		runOps(fmt.Sprintf("s%d", v), nfScripted(verifRng(int64(v)), hookTok, v), "scripted")
 	}
 	n := verifN(3000, 40000)
 	for c := 0; c < n; c++ {
 		rng := verifRng(int64(1000 + c))
-		g := &nfGen{rng: rng, n: 8 + rng.Intn(20), hook: hookTok, focus: c % 4}
+		g := &nfGen{rng: rng, n: 8 + rng.Intn(20), hook: hookTok, focus: c % 5}
 		emit := func(op, obs string, tags ...string) { out.line(fmt.Sprintf("g%d", c), op, obs, tags...) }
 		drained := false
 		nfRunCase(t, hook, emit, func(w *nfWorld, step int) string {
@@ -1414,6 +1591,10 @@ func nfDrain(w *nfWorld, state *bool) string {
 		}
 	}
 	w.mu.Unlock()
+	// every callback has taken its snapshot: now the handlers held after their ack write go on
+	if wins := w.ackWindows(); len(wins) > 0 {
+		return "ackdone " + wins[0]
+	}
 	if !w.ended {
 		w.ended = true
 		return "end"
